@@ -186,6 +186,16 @@ def closure_var(fn, name):
     raise loader.BindingError(f"callback does not capture `{name}`")
 
 
+def balance_snapshot(fn, pre_balance):
+    """the balance array has no snapshot object of its own (arrays are immutable terms): the callback may keep the old
+    array under any local name, or none; the clause on the local is stated when the local exists, and the end-state
+    obligation (`nx.balance is pre.balance` after a failing frame) decides either way (seed C01-11 removed the local)"""
+    try:
+        return closure_var(fn, "orig_balance")
+    except loader.BindingError:
+        return pre_balance
+
+
 def simulate_subframe(sevm, sub, fail, stuck=False):
     """an arbitrary-looking effect of the callee on everything it can reach"""
     slot, val = hb.HalmosBitVec(3), hb.HalmosBitVec(z3.BitVec("written", 256))
@@ -221,7 +231,8 @@ def callback_cases():
                     return
                 sub = subs[0]
                 cb = sub.callback
-                snap = {n: closure_var(cb, n) for n in ("orig_code", "orig_storage", "orig_transient_storage", "orig_balance")}
+                snap = {n: closure_var(cb, n) for n in ("orig_code", "orig_storage", "orig_transient_storage")}
+                snap["orig_balance"] = balance_snapshot(cb, pre.balance)
                 # ---- snapshot taken before the frame started, before the value transfer
                 ctx.oblige("snapshot equals the state before the call (storage, transient storage, code, balance before the value transfer)", z3.BoolVal(storage_fingerprint(snap["orig_storage"]) == pre.storage and storage_fingerprint(snap["orig_transient_storage"]) == pre.transient and [str(k) for k in snap["orig_code"]] == pre.code_keys and snap["orig_balance"] is pre.balance))
                 # ---- ownership: nothing the sub-frame can reach is part of the snapshot
@@ -447,7 +458,8 @@ def create_cases():
                 pg = sub.pgm
                 ctx.oblige("the creation frame runs the init code as the byte sequence it is in memory (concrete prefix kept concrete, so its jump destinations are found), for CREATE and CREATE2 alike", z3.BoolVal(len(pg) == len(init) + 32 and pg._fastcode is not None and bytes(pg._fastcode) == init and pg[0] == init[0]), info={"fastcode": str(pg._fastcode)[:40], "chunks": len(pg._code.chunks)})
                 cb = sub.callback
-                snap = {n: closure_var(cb, n) for n in ("orig_code", "orig_storage", "orig_transient_storage", "orig_balance")}
+                snap = {n: closure_var(cb, n) for n in ("orig_code", "orig_storage", "orig_transient_storage")}
+                snap["orig_balance"] = balance_snapshot(cb, pre.balance)
                 ctx.oblige("snapshot equals the state before the creation (no new account, endowment not yet moved)", z3.BoolVal(storage_fingerprint(snap["orig_storage"]) == pre.storage and [str(k) for k in snap["orig_code"]] == pre.code_keys and snap["orig_balance"] is pre.balance))
                 reach_sub_state = reachable_ids(NS(a=sub.code, b=sub.storage, c=sub.transient_storage, d=sub.st, e=sub.context, f=sub.alias))
                 snap_objs = [snap["orig_code"], snap["orig_storage"], snap["orig_transient_storage"]] + list(snap["orig_storage"].values())
